@@ -18,7 +18,7 @@ package handler
 //@ type Handler4
 //@   requires valid4(req) && valid4(resp) && req != resp
 //@   modifies everything
-//@   ensures[C13:logged] hlog_n == old(hlog_n) + 1 && hlog_fn == upd(old(hlog_fn), old(hlog_n), self) && \
+//@   ensures[C13,callsite:logged] hlog_n == old(hlog_n) + 1 && hlog_fn == upd(old(hlog_fn), old(hlog_n), self) && \
 //@       hlog_req4 == upd(old(hlog_req4), old(hlog_n), req) && hlog_in4 == upd(old(hlog_in4), old(hlog_n), resp) && \
 //@       hlog_out4 == upd(old(hlog_out4), old(hlog_n), ret0) && hlog_stop == upd(old(hlog_stop), old(hlog_n), ret1)
 //@   ensures[C13:nil-only-with-stop] ret0 == nil ==> ret1
